@@ -156,6 +156,29 @@ P = {
        "declined; the two misplacements the property text mentions are outside static reach.",
   technique="panic-site obligations with pattern discharge rules + value-identity dataflow + ordered who-may-write + guard dominance",
   ref="§4 C13, §3 A2/A3"),
+ "C12": dict(
+  text="Every acyclic MIR path of the key-value processor is summarised symbolically as (predicates over the entry state from a closed, recognised "
+       "vocabulary; ordered effects on the composed text). Infeasible paths (contradictory pure predicates) are discarded; on every remaining path "
+       "that does not take the old vowel-sign order option, an independent transcription of the documented rule list is evaluated in three-valued "
+       "logic over the path's predicates and its expected effect sequence is compared with the extracted one — so the priority chain, each rule's "
+       "effect, both ten-row vowel tables (against Unicode's sign↔vowel pairing) and all rule interactions are decided for every path at once, "
+       "with nothing executed. Plus: the character classes read as sets from their predicates' MIR against Unicode-derived bounds, joiner constants, "
+       "plain back-space = one pop on text and raw keys, and the pending-sign machinery untouched when the option is off.",
+  note="Trusted: rustc MIR; std String push/pop semantics. Unrecognised predicates fail closed (undecidable). Key values of several code points "
+       "that start with a vowel sign are treated by their first character, as the rules are stated for a typed vowel sign.",
+  technique="symbolic path summaries (predicate vocabulary + effect sequences) checked against a three-valued evaluation of an independent rule list; finite evaluation of class predicates",
+  ref="§4 C12 (deepened: rule-table equivalence instead of dominance order only)"),
+ "C14": dict(
+  text="On the same symbolic path summaries as C12, restricted to feasible paths that take the old vowel-sign order option: every assignment of a "
+       "pending sign is under the option; the capture maps (from the key, from the popped character) and the restore maps (as sign, as independent "
+       "vowel) are extracted from the paths' (condition, effect) pairs and must be ি↔I, ে↔E, ৈ↔OI consistently; the three fusion leaves (ে+া→ো, "
+       "ে+ৌ/ৗ→ৌ); a frame rule: on option-on paths where none of the feature's situations applies (capture, fusion, pending sign present, hasanta/fola "
+       "after a left-standing sign) the effects must equal the option-off rule list; the pending sign is read only by processor / session flag / "
+       "back-space / resets (never rendered), is tested by the session flag, and every back-space path with a pending sign discards it without "
+       "popping the text. Decides the state machine's per-key structure; not the multi-key equivalence with Unicode-order typing.",
+  note="Trusted: rustc MIR. The for-all-words equivalence of the composed text is a statement about sequences of keys and is declined.",
+  technique="symbolic path summaries: map extraction, frame rule against the option-off rule list, who-reads analysis, field-state paths of back-space",
+  ref="§4 C14"),
 }
 
 NA_REASON = "rule module not built yet in this round (see DESIGN.md §4 for the planned static rules)"
